@@ -35,7 +35,7 @@ from ..par import Result, deadline_passed, alarm, CaseTimeout
 ID = "C14"
 LEVEL = "exploration"
 ENGINE = "E1"
-CAP_S = {"quick": 300, "thorough": 1700}
+CAP_S = {"quick": 900, "thorough": 1700}
 HANG_S = 5.0
 
 # ------------------------------------------------------------------ alphabets (DESIGN section 3, C14)
@@ -92,17 +92,27 @@ def console(width):
 # ------------------------------------------------------------------ judging one call
 def _where(exc):
     """basename:function of the innermost frame inside the rich package (the
-    function that raised); falls back to the innermost frame of all."""
-    tb = exc.__traceback__
-    last = last_rich = None
-    while tb is not None:
-        code = tb.tb_frame.f_code
-        fn = code.co_filename
-        last = (fn, code.co_name)
-        if (os.sep + "rich" + os.sep) in fn and (os.sep + "vf" + os.sep) not in fn:
-            last_rich = (fn, code.co_name)
-        tb = tb.tb_next
-    f = last_rich or last or ("?", "?")
+    function that raised). An exception re-raised at a generator boundary
+    (StopIteration -> RuntimeError) has no rich frame of its own: then the
+    cause/context chain is followed. Falls back to the innermost frame of all."""
+    first = None
+    seen = 0
+    while exc is not None and seen < 4:
+        tb = exc.__traceback__
+        last = last_rich = None
+        while tb is not None:
+            code = tb.tb_frame.f_code
+            fn = code.co_filename
+            last = (fn, code.co_name)
+            if (os.sep + "rich" + os.sep) in fn and (os.sep + "vf" + os.sep) not in fn:
+                last_rich = (fn, code.co_name)
+            tb = tb.tb_next
+        if last_rich:
+            return "%s:%s" % (os.path.basename(last_rich[0]), last_rich[1])
+        first = first or last
+        exc = exc.__cause__ or exc.__context__
+        seen += 1
+    f = first or ("?", "?")
     return "%s:%s" % (os.path.basename(f[0]), f[1])
 
 
